@@ -27,11 +27,11 @@ def gen_case(rng, k):
     recv, meth, ptypes = rng.choice(RECV)
     rv = "r%d" % k
     lines.append("%s = %s" % (rv, recv))
-    nparams = rng.choice([len(ptypes), len(ptypes), max(0, len(ptypes) - 1), len(ptypes) + 1])
+    nparams = rng.choice([len(ptypes), len(ptypes), max(0, len(ptypes) - 1), len(ptypes) + 1, 3, 3, rng.randint(0, 3)])
     shadow = rng.random() < 0.4 and nparams > 0
     params = ["bp%d_%d" % (k, i) for i in range(nparams)]
     if shadow:
-        params[0] = outer
+        params[rng.randrange(nparams)] = outer        # any position, a surplus one included
     brace = rng.random() < 0.3
     head = "%s.%s %s%s" % (rv, meth, "{" if brace else "do", (" |%s|" % ", ".join(params)) if params else "")
     lines.append(head)
